@@ -392,6 +392,54 @@ def scenario_clients_come_and_go(s, seed):
     return {"bad": bad, "log": log}
 
 
+def scenario_many_pending(s, n, place):
+    """very many calls outstanding on ONE object at the same time (the object is busy; n non-blocking calls are issued
+    and waited for afterwards): every caller still gets the outcome of its own invocation, none is lost"""
+    import dsched as _ds
+    logging.disable(logging.CRITICAL)
+    from qmi.core.context import QMI_Context
+    from qmi.core.config_defs import CfgQmi, CfgContext
+    from qmi.core.rpc import QMI_RpcObject, rpc_method
+
+    class Busy(QMI_RpcObject):
+        @rpc_method
+        def hold(self, dur):
+            _ds.FAKE_TIME.sleep(dur)
+            return "held"
+
+        @rpc_method
+        def echo(self, x, scale=1):
+            return (x, x * scale)
+    cfg = CfgQmi(contexts={"srv": CfgContext(tcp_server_port=5001)})
+    srv = QMI_Context("srv", cfg)
+    srv.start()
+    proxy = srv.make_rpc_object("busy", Busy)
+    cl = None
+    if place == "remote":
+        cl = QMI_Context("cl", cfg)
+        cl.start()
+        cl.connect_to_peer("srv", "127.0.0.1:5001")
+        proxy = cl.get_rpc_object_by_name("srv.busy")
+    bad = []
+    h = proxy.rpc_nonblocking.hold(5.0)
+    futs = [proxy.rpc_nonblocking.echo(i, scale=3) for i in range(n)]
+    if h.wait() != "held":
+        bad.append({"call": "hold", "got": "?"})
+    for i, f in enumerate(futs):
+        try:
+            got = f.wait(30.0)
+        except BaseException as e:  # noqa
+            got = ("EXC", repr(e)[:80])
+        if got != (i, i * 3):
+            bad.append({"call": i, "got": repr(got), "outstanding": n, "place": place})
+            if len(bad) > 3:
+                break
+    if cl is not None:
+        cl.stop()
+    srv.stop()
+    return {"bad": bad, "log": ["%d calls outstanding on one object (%s)" % (n, place)]}
+
+
 def scenario_several_peers(s, seed):
     """one calling context connected to several server contexts (and with incoming clients of its own): while calls to
     one peer are in flight (the method is still running), OTHER connections of the calling context are closed - by
@@ -634,6 +682,19 @@ def run(ck):
         for b in res["obs"]["bad"][:1]:
             ck.report("oracle:several-peers:wrong-outcome", "while ANOTHER connection of the calling context was closed a caller did not get the "
                       "outcome of its own invocation: %s" % b, {"peers_seed": ck.seed * 61 + i, "schedule": res.get("choices"), "detail": b})
+    # ---- part F: very many calls outstanding on one object (no bound on the number of concurrent callers)
+    jobs = [(scenario_many_pending, (n, place), dict(strategy="fifo", seed=1))
+            for n, place in ((1100, "local"), (2300, "local"), (1100, "remote"))]
+    for (sc, args, kw), res in zip(jobs, dsched.run_forked(jobs, nproc=3, wall_timeout=240)):
+        ck.note_case(("many-pending", args), True)
+        ck.count("many-pending:" + res["status"])
+        if res["status"] != "ok":
+            ck.report("oracle:many-pending:%s" % res["status"], "%d calls outstanding on one object (%s): %s" % (args[0], args[1], str(res.get("trace") or res.get("info"))[:300]),
+                      {"many_pending": list(args)})
+            continue
+        for b in res["obs"]["bad"][:1]:
+            ck.report("oracle:many-pending:wrong-outcome", "with %d calls outstanding on one object a caller did not get the outcome of its own invocation: %s" % (args[0], b),
+                      {"many_pending": list(args), "detail": b})
     return ck.finish("A: random hops incl. forged names (each distinct); B: generated values through direct/local/remote x blocking/non-blocking; "
                      "C: concurrent callers under seeded schedules")
 
@@ -644,6 +705,10 @@ def replay(rep):
     if "hop" in c:
         print("hop replay needs the payload; key:", c)
         return 1
+    if "many_pending" in c:
+        res = dsched.run_forked([(scenario_many_pending, tuple(c["many_pending"]), dict(strategy="fifo", seed=1))], nproc=1, wall_timeout=240)[0]
+        print(res["status"], (res.get("obs") or {}).get("bad"))
+        return 1 if (res["status"] != "ok" or res["obs"]["bad"]) else 0
     if "peers_seed" in c:
         res = dsched.run_forked([(scenario_several_peers, (c["peers_seed"],), dict(strategy="replay", schedule=list(c.get("schedule") or [])))], nproc=1)[0]
         print(res["status"], (res.get("obs") or {}).get("bad"))
